@@ -111,8 +111,14 @@ def detect(pid, n, tier="quick", props=None):
         print("patch does not apply to /repo:", out)
         return
     results = meta.setdefault("detection", {})
+    saved = {}
     try:
         for p in (props or [pid]):
+            # the evidence file on disk must describe the unchanged tree:
+            # keep it aside while the check runs against the changed one
+            evp = os.path.join(VERIF, "evidence", p + ".json")
+            if os.path.exists(evp):
+                saved[evp] = open(evp).read()
             t0 = time.time()
             rc, out = sh([os.path.join(VERIF, "check"), p, "--tier", tier], cwd=VERIF, timeout=6 * 3600)
             viol = [l for l in out.splitlines() if l.startswith("VIOLATION")]
@@ -139,6 +145,8 @@ def detect(pid, n, tier="quick", props=None):
                 print(out[-1500:])
     finally:
         sh(["git", "-C", "/repo", "checkout", "--", "."])
+        for evp, text in saved.items():
+            open(evp, "w").write(text)
     save_meta(pid, n, meta)
 
 
